@@ -525,6 +525,7 @@ func units(tier string) []engine.Unit {
 	}
 	reversed := func(a, b int) age.Rank { return cmpInt(b, a) }
 	coarse := func(a, b int) age.Rank { return cmpInt(a/2, b/2) }
+	add("bulk-operands", bulkOperands)
 	add("int-default", func(r *engine.Rec) {
 		run(r, &cfg[int]{name: "Set[int] default collator", universe: small, rank: cmpInt, maxSize: 99})
 	})
